@@ -543,8 +543,10 @@ OPS = {
     "frequency_response": lambda s, w, **kw: ct.frequency_response(s, w, **kw),
     "dcgain": lambda s: ct.dcgain(s), "poles": lambda s: ct.poles(s), "zeros": lambda s: ct.zeros(s),
     "damp": lambda s: ct.damp(s, doprint=False),
-    "stability_margins": lambda s: ct.stability_margins(s),
-    "margin": lambda s: ct.margin(s),
+    # (stability_margins prints the exception text when it cannot build an FRD from the data it is
+    # given, e.g. a frequency vector that is not increasing, and raises: stdout is captured)
+    "stability_margins": _quiet(lambda s: ct.stability_margins(s)),
+    "margin": _quiet(lambda s: ct.margin(s)),
     "phase_crossover_frequencies": lambda s: ct.phase_crossover_frequencies(s),
     "bandwidth": lambda s: ct.bandwidth(s),
     "norm": lambda s, p=2: ct.norm(s, p),
@@ -583,8 +585,8 @@ OPS = {
     "create_estimator_iosystem": lambda s, QN, RN, **kw: ct.create_estimator_iosystem(s, QN, RN, **kw),
     "dlqr": lambda *a: ct.dlqr(*a), "lqe": lambda *a: ct.lqe(*a),
     "care": lambda *a: ct.care(*a), "dare": lambda *a: ct.dare(*a),
-    "margin_arrays": lambda mag, phase, omega: ct.margin(mag, phase, omega),
-    "stability_margins_arrays": lambda mag, phase, omega: ct.stability_margins((mag, phase, omega)),
+    "margin_arrays": _quiet(lambda mag, phase, omega: ct.margin(mag, phase, omega)),
+    "stability_margins_arrays": _quiet(lambda mag, phase, omega: ct.stability_margins((mag, phase, omega))),
     "describing_function": lambda kind, c, A, **kw: ct.describing_function(_nonlin(kind, c), A, **kw),
     "markov": lambda Y, U, m, **kw: ct.markov(Y, U, m, **kw),
     "eigensys_realization": lambda Y, r, **kw: ct.eigensys_realization(Y, r, **kw),
@@ -1322,6 +1324,13 @@ class C19(Family):
             "complex-pole blocks, Hessenberg: not the Schur form an in-place LAPACK reduction leaves alone) and whose "
             "matrices are column-major (np.asfortranarray data, a dual system built from transposed arrays, the result "
             "of similarity_transform, copies of such systems), non-contiguous or row-major; "
+            "frequency vectors in increasing, decreasing or no order, held as literal list / float array / view / list "
+            "object / integer array, for FRD systems (SISO and 2x2 with 3-D data, interpolating or not, copies that share "
+            "their arrays, two systems on one vector) and for every function that takes a frequency vector; FRD "
+            "operands combined with TransferFunction / StateSpace operands (re-sampled on the FRD's own vector) by "
+            "+ - * / feedback series parallel append sum() in both orders, in the random streams and in a fourth sweep "
+            "that applies every such operation and every reading operation to FRD systems on non-increasing vectors "
+            "between repeated probes (value at a listed frequency, printed table); "
             "parameter-protocol histories over an interconnected system with recording subsystems; a "
             "case is non-trivial when it has >= 3 executed calls of >= 2 different kinds")
 
@@ -1557,6 +1566,44 @@ class C19(Family):
         st["has_system_matrices_as_arguments"] = any(
             s[0] in ("op", "probe") and s[2] not in ("ssdata",) and "item" in json.dumps(s[3]) and
             any(t[0] == "op" and t[2] == "ssdata" and t[1] in slots_in(s[3], []) for t in steps) for s in steps)
+        # frequency vectors that are not increasing (FRD grids, `omega` arguments); an FRD next to a
+        # TransferFunction / StateSpace operand (re-sampled on the FRD's own grid); MIMO FRD (3-D data)
+        def vec_of(x):
+            sp = specs.get(x["s"], {}) if is_ref(x) and "s" in x else {"v": x}
+            if "base" in sp and isinstance(sp.get("shape"), list) and len(sp["shape"]) == 1:
+                b = specs.get(sp["base"]["s"], {}).get("v")
+                if isinstance(b, list) and b and not isinstance(b[0], list):
+                    return {"slice": b[sp.get("off", [0])[0]:][:sp["shape"][0]], "stride": b[::2]}.get(sp["how"])
+                if isinstance(b, list) and b and isinstance(b[0], list):
+                    return [y for r in b for y in r]
+                return None
+            v = sp.get("v")
+            return v if isinstance(v, list) and v and all(isinstance(y, (int, float)) for y in v) else None
+        frds = {s[1]: vec_of(s[3]["omega"]) for s in steps if s[0] == "new" and s[2] == "frd"}
+        unsorted_frd = {k for k, v in frds.items() if v and v != sorted(v)}
+        st["has_frd_on_unsorted_frequencies"] = bool(unsorted_frd)
+        st["has_mimo_frd"] = any(s[0] == "new" and s[2] == "frd" and (
+            (isinstance(s[3]["data"], list) and s[3]["data"] and isinstance(s[3]["data"][0], list)) or
+            (is_ref(s[3]["data"]) and len(specs.get(s[3]["data"].get("s"), {}).get("v", [])) > 0 and
+             isinstance(specs[s[3]["data"]["s"]]["v"][0], list))) for s in steps)
+        ltis = {s[1] for s in steps if s[0] == "new" and s[2] in ("ss", "tf")}
+        BIN = ("add", "sub", "mul", "div", "feedback", "m_feedback", "series", "parallel", "append", "m_append", "sum",
+               "gangof4_response")
+        def mixes(s, pool):
+            used = set(slots_in(s[3], []))
+            return s[2] in BIN and used & pool and used & ltis
+        st["has_frd_with_tf_or_ss_operand"] = any(mixes(s, set(frds)) for s in ops)
+        st["has_unsorted_frd_with_tf_or_ss_operand"] = any(mixes(s, unsorted_frd) for s in ops)
+        FREQ_FN = ("m_freqresp", "frequency_response", "frd", "bode_plot", "nyquist_plot", "nichols_plot",
+                   "singular_values_plot", "singular_values_response", "nyquist_response", "gangof4_response",
+                   "gangof4_plot", "margin_arrays", "stability_margins_arrays", "describing_function", "root_locus_map")
+        def unsorted_arg(s):
+            for x in list(s[3][1:]) + [s[4].get("omega")]:
+                v = vec_of(x) if (isinstance(x, list) or (is_ref(x) and "s" in x)) else None
+                if v and len(v) > 1 and v != sorted(v):
+                    return True
+            return False
+        st["has_unsorted_frequency_argument"] = any(s[2] in FREQ_FN and unsorted_arg(s) for s in ops)
         st["has_probe_pair"] = any(r["outs"] and r["outs"][-1][0] == "probe" and r["outs"][-1][1] is not None
                                    for r in impl.get("trace", []))
         return st
